@@ -206,16 +206,23 @@ def _unpack_pre_snap_posts(
 
 
 def _assert_resolved_kwargs_valid(
-    postconditions: List[Contract], resolved_kwargs: Mapping[str, Any]
+    postconditions: List[Contract],
+    resolved_kwargs: Mapping[str, Any],
+    variadic_names: Iterable[str] = (),
 ) -> Optional[TypeError]:
-    """Check that the resolved kwargs of a decorated function are valid."""
+    """
+    Check that the resolved kwargs of a decorated function are valid.
+
+    The names of the variable parameters (``*args`` and ``**kwargs``) of the function are given separately as
+    ``variadic_names`` since they are among the resolved arguments only if the call supplies surplus arguments.
+    """
     if postconditions:
-        if "result" in resolved_kwargs:
+        if "result" in resolved_kwargs or "result" in variadic_names:
             return TypeError(
                 "Unexpected argument 'result' in a function decorated with postconditions."
             )
 
-        if "OLD" in resolved_kwargs:
+        if "OLD" in resolved_kwargs or "OLD" in variadic_names:
             return TypeError(
                 "Unexpected argument 'OLD' in a function decorated with postconditions."
             )
@@ -736,6 +743,13 @@ def decorate_with_checker(func: CallableT) -> CallableT:
         if param.kind == inspect.Parameter.POSITIONAL_ONLY
     )
 
+    variadic_names = frozenset(
+        param.name
+        for param in sign.parameters.values()
+        if param.kind
+        in (inspect.Parameter.VAR_POSITIONAL, inspect.Parameter.VAR_KEYWORD)
+    )
+
     # Determine the default argument values
     kwdefaults = resolve_kwdefaults(sign=sign)
 
@@ -794,7 +808,7 @@ def decorate_with_checker(func: CallableT) -> CallableT:
                 )
 
                 type_error = _assert_resolved_kwargs_valid(
-                    postconditions, resolved_kwargs
+                    postconditions, resolved_kwargs, variadic_names
                 )
                 if type_error:
                     raise type_error
@@ -884,7 +898,9 @@ def decorate_with_checker(func: CallableT) -> CallableT:
                 )
 
                 type_error = _assert_resolved_kwargs_valid(
-                    postconditions=postconditions, resolved_kwargs=resolved_kwargs
+                    postconditions=postconditions,
+                    resolved_kwargs=resolved_kwargs,
+                    variadic_names=variadic_names,
                 )
                 if type_error:
                     raise type_error
